@@ -67,6 +67,11 @@ type fieldPlan struct {
 	// (constant-true at plan time, the common case).
 	skipPredicate func(map[string]interface{}) bool
 
+	// astPredicates[i] is the inclusion predicate of fieldASTs[i] alone
+	// (nil ⇒ always included): only the sub-selections of the included
+	// occurrences are executed for a merged field.
+	astPredicates []func(map[string]interface{}) bool
+
 	// sub is set when returnType (after unwrapping NonNull and List)
 	// resolves to a single concrete *Object; abstractAlternatives is
 	// set when it resolves to an Interface or Union; both nil for
@@ -207,7 +212,7 @@ func (p *Plan) planMergedFieldChildren(fp *fieldPlan) {
 	// Object returns resolve to a single concrete type, so plan their
 	// sub-selection eagerly.
 	if obj, ok := unwrapNamedType(fp.returnType).(*Object); ok {
-		fp.sub = p.planMergedSelectionsForType(obj, fp.fieldASTs)
+		fp.sub = p.planMergedSelectionsForType(obj, fp.fieldASTs, fp.astPredicates)
 		return
 	}
 	// Abstract returns (Interface / Union) are planned lazily, per
@@ -234,7 +239,7 @@ func (p *Plan) abstractAlternative(fp *fieldPlan, runtimeType *Object) *selectio
 	if sub, ok := fp.abstractAlternatives[runtimeType]; ok {
 		return sub
 	}
-	sub := p.planMergedSelectionsForType(runtimeType, fp.fieldASTs)
+	sub := p.planMergedSelectionsForType(runtimeType, fp.fieldASTs, fp.astPredicates)
 	fp.abstractAlternatives[runtimeType] = sub
 	return sub
 }
@@ -243,15 +248,21 @@ func (p *Plan) abstractAlternative(fp *fieldPlan, runtimeType *Object) *selectio
 // SelectionSet under one concrete parent type, returning a
 // selectionPlan that mirrors what completeObjectValue's runtime
 // collectFields loop would produce.
-func (p *Plan) planMergedSelectionsForType(parentType *Object, fieldASTs []*ast.Field) *selectionPlan {
+func (p *Plan) planMergedSelectionsForType(parentType *Object, fieldASTs []*ast.Field, astPredicates []func(map[string]interface{}) bool) *selectionPlan {
 	sp := &selectionPlan{parentType: parentType}
 	keyed := map[string]int{}
 	visited := map[string]bool{}
-	for _, f := range fieldASTs {
+	for i, f := range fieldASTs {
 		if f == nil || f.SelectionSet == nil {
 			continue
 		}
-		p.collectInto(parentType, f.SelectionSet, visited, sp, keyed, nil)
+		// An occurrence contributes its sub-selection only when it is
+		// itself included.
+		var occurrencePred func(map[string]interface{}) bool
+		if i < len(astPredicates) {
+			occurrencePred = astPredicates[i]
+		}
+		p.collectInto(parentType, f.SelectionSet, visited, sp, keyed, occurrencePred)
 	}
 	if len(sp.fields) == 0 {
 		return nil
@@ -297,9 +308,11 @@ func (p *Plan) collectInto(parentType *Object, selectionSet *ast.SelectionSet, v
 				// validation rules guarantee mergeable selections refer
 				// to the same field).
 				merged := sp.fields[idx]
+				occurrencePred := andPredicates(parentPred, pred)
 				merged.fieldASTs = append(merged.fieldASTs, sel)
+				merged.astPredicates = append(merged.astPredicates, occurrencePred)
 				// The response key is present when any of its occurrences is included.
-				merged.skipPredicate = orPredicates(merged.skipPredicate, andPredicates(parentPred, pred))
+				merged.skipPredicate = orPredicates(merged.skipPredicate, occurrencePred)
 				continue
 			}
 			fieldName := ""
@@ -312,12 +325,14 @@ func (p *Plan) collectInto(parentType *Object, selectionSet *ast.SelectionSet, v
 				// fieldDef so ExecutePlan can mirror the
 				// hasNoFieldDefs branch (skip the response key).
 			}
+			occurrencePred := andPredicates(parentPred, pred)
 			fp := &fieldPlan{
 				responseKey:   responseKey,
 				fieldName:     fieldName,
 				fieldDef:      fieldDef,
 				fieldASTs:     []*ast.Field{sel},
-				skipPredicate: andPredicates(parentPred, pred),
+				skipPredicate: occurrencePred,
+				astPredicates: []func(map[string]interface{}) bool{occurrencePred},
 			}
 			if fieldDef != nil {
 				fp.returnType = fieldDef.Type
